@@ -110,11 +110,14 @@ PROPS["C01"] = {
         ("R-ROW-SCALING", rp2.rule_row_scaling, {}),
         ("R-SIBLING", rp2.rule_sibling, {"configs": ("parallel",)}),
         ("R-NALGEBRA-SOLVE", rules_lm.rule_nalgebra_solve, {"configs": ("default",)}),
+        ("R-SETTER-FRAME", rp2.rule_setter_frame, {}),
+        ("R-CTOR-SIBLINGS", rp2.rule_ctor_siblings, {}),
     ],
     "explanation": "Provenance of the coefficient solve decided on the term reconstructed from MIR for both LeastSquaresProblem impls: "
                    "cached coefficients = SVD::solve(svd(W*Model::eval(model after Model::set_params), true, true), weighted data role, epsilon role by pure copy); "
                    "build() weights the observations exactly once with the same weights it stores, epsilon = |given| or machine epsilon; `&Weights*M` is the identity for Unit and "
-                   "per-column component_mul_assign(diagonal) for Diagonal.",
+                   "per-column component_mul_assign(diagonal) for Diagonal. The weights and threshold a caller configured reach build(): every builder setter "
+                   "replaces exactly its own field and the constructors agree (frame rules).",
     "not_decided": ["that nalgebra's SVD/solve returns the minimum-norm minimiser", "finiteness of values", "numerical linearity in y"],
 }
 PROPS["C02"] = {
